@@ -40,12 +40,36 @@ def class_lock_attrs(cls) -> set[str]:
     return out
 
 
+def _self_attrs_of_value(v):
+    """{X} when v is self.X, {X, Y} when v is `self.X if c else self.Y`; else empty"""
+    a = self_attr(v)
+    if a:
+        return {a}
+    if isinstance(v, ast.IfExp):
+        l, r = _self_attrs_of_value(v.body), _self_attrs_of_value(v.orelse)
+        return (l | r) if l and r else set()
+    return set()
+
+
+def local_aliases(fn_node) -> dict:
+    """{local name: {self attributes it may stand for}} for locals bound to self.X / `self.X if c else self.Y`"""
+    out = {}
+    for n in walk_no_nested(fn_node):
+        if isinstance(n, ast.Assign) and len(n.targets) == 1 and isinstance(n.targets[0], ast.Name):
+            attrs = _self_attrs_of_value(n.value)
+            if attrs:
+                out.setdefault(n.targets[0].id, set()).update(attrs)
+    return out
+
+
 def class_guarded_fields(cls, lock_attrs) -> set[str]:
-    """self attributes that are item-stored / item-deleted / item-augassigned outside __init__"""
+    """self attributes that are item-stored / item-deleted / item-augassigned outside __init__ (directly, or through a
+    local bound to the attribute: `holders = self._shared_by if shared else self._exclusively_held_by; holders[k] += 1`)"""
     out = set()
     for name, f in cls.methods.items():
         if name == '__init__':
             continue
+        al = local_aliases(f.node)
         for n in walk_no_nested(f.node):
             tgts = []
             if isinstance(n, ast.Assign):
@@ -59,6 +83,8 @@ def class_guarded_fields(cls, lock_attrs) -> set[str]:
                     a = self_attr(t.value)
                     if a and a not in lock_attrs:
                         out.add(a)
+                    if isinstance(t.value, ast.Name) and t.value.id in al:
+                        out |= al[t.value.id] - set(lock_attrs)
     return out
 
 
@@ -86,10 +112,12 @@ def _blocking_arg(call: ast.Call):
     return None
 
 
-def _counter_update(stmt):
-    """('inc'|'dec', field, keytext) for `self.F[k] += 1` / `-= 1`"""
+def _counter_update(stmt, alias_of=None):
+    """('inc'|'dec', field, keytext) for `self.F[k] += 1` / `-= 1` (F also through a local alias)"""
     if isinstance(stmt, ast.AugAssign) and isinstance(stmt.target, ast.Subscript):
         f = self_attr(stmt.target.value)
+        if f is None and alias_of is not None and isinstance(stmt.target.value, ast.Name):
+            f = alias_of(stmt.target.value.id)
         if f and isinstance(stmt.value, ast.Constant) and stmt.value.value == 1:
             if isinstance(stmt.op, ast.Add):
                 return 'inc', f, unparse(stmt.target.slice)
@@ -101,9 +129,11 @@ def _counter_update(stmt):
 class LockFlow:
     """lock / flag / counter dataflow for one method"""
 
-    def __init__(self, fn_node, locks: set[str]):
+    def __init__(self, fn_node, locks: set[str], fields=()):
         self.fn = fn_node
         self.locks = set(locks)
+        self.fields = set(fields)
+        self.counter_nodes = {}     # node id -> ('inc'|'dec', field, key)
         self.cfg = CFG(fn_node)
         self.flags = self._flag_names()
         self.bad_dec = []   # (node, state) decrement reached without increment
@@ -185,12 +215,17 @@ class LockFlow:
         a = node.ast
         k = node.kind
         if k == 'test':
-            lc = _lock_call(a, self.locks)
+            t_, neg = a, False
+            while isinstance(t_, ast.UnaryOp) and isinstance(t_.op, ast.Not):
+                t_, neg = t_.operand, not neg
+            lc = _lock_call(t_, self.locks)
             if lc and lc[1] == 'acquire':
+                # `if lock.acquire(..):` / `if not lock.acquire(..): raise`: held on the edge where the call was true
                 held = st | {('held', lc[0])}
-                if _blocking_arg(a) is None:
-                    return [(frozenset({'true'}), held)]
-                return [(frozenset({'true'}), held), (frozenset({'false'}), st)]
+                got, refused = (frozenset({'false'}), frozenset({'true'})) if neg else (frozenset({'true'}), frozenset({'false'}))
+                if _blocking_arg(t_) is None:
+                    return [(got, held)]
+                return [(got, held), (refused, st)]
             v = self._flag_value(a, st)
             if v is True:
                 return [(frozenset({'true'}), st), (EXC, st)]
@@ -221,13 +256,62 @@ class LockFlow:
                         return [(NORMAL, st | {('held', la)})]
                     if meth == 'release':
                         return [(None, st - {('held', la)})]
+                    if meth == 'notify_all':
+                        return [(None, frozenset(f for f in st if f[0] != 'removed'))]
                     return [(None, st)]
             if isinstance(a, ast.Assign) and len(a.targets) == 1 and isinstance(a.targets[0], ast.Name) \
                     and a.targets[0].id in self.flags:
                 new = self._set_flag(st, a.targets[0].id, a.value.value)
                 return [(NORMAL, new), (EXC, st)]
-            cu = _counter_update(a)
+            if isinstance(a, ast.Assign) and len(a.targets) == 1 and isinstance(a.targets[0], ast.Name) and self.fields:
+                # local alias of a bookkeeping field: x = self.F / x = self.F if flag else self.G
+                nm = a.targets[0].id
+                base = frozenset(f for f in st if not (f[0] == 'alias' and f[1] == nm))
+                v = a.value
+                fa = self_attr(v)
+                if fa in self.fields:
+                    return [(None, base | {('alias', nm, fa)})]
+                if isinstance(v, ast.IfExp) and self_attr(v.body) in self.fields and self_attr(v.orelse) in self.fields:
+                    fv = self._flag_value(v.test, st)
+                    if fv is True:
+                        return [(None, base | {('alias', nm, self_attr(v.body))})]
+                    if fv is False:
+                        return [(None, base | {('alias', nm, self_attr(v.orelse))})]
+                    t_, pos = v.test, True
+                    if isinstance(t_, ast.UnaryOp) and isinstance(t_.op, ast.Not):
+                        t_, pos = t_.operand, False
+                    if isinstance(t_, ast.Name) and t_.id in self.flags:
+                        return [(None, self._set_flag(base, t_.id, pos) | {('alias', nm, self_attr(v.body))}),
+                                (None, self._set_flag(base, t_.id, not pos) | {('alias', nm, self_attr(v.orelse))})]
+                    return [(None, base | {('alias', nm, self_attr(v.body))}),
+                            (None, base | {('alias', nm, self_attr(v.orelse))})]
+                if base != st:
+                    return [(None, base)]
+
+            def alias_of(name, st=st):
+                fs = {f[2] for f in st if f[0] == 'alias' and f[1] == name}
+                return next(iter(fs)) if len(fs) == 1 else None
+            # removal of a holder entry (read by wait predicates) / notification of the waiters
+            if isinstance(a, ast.Delete):
+                rem = set()
+                for t in a.targets:
+                    if isinstance(t, ast.Subscript):
+                        fld = self_attr(t.value) or (alias_of(t.value.id) if isinstance(t.value, ast.Name) else None)
+                        if fld:
+                            rem.add(('removed', fld))
+                if rem:
+                    return [(None, st | rem)]
+            if isinstance(a, ast.Expr) and isinstance(a.value, ast.Call) and isinstance(a.value.func, ast.Attribute):
+                fn_ = a.value.func
+                if fn_.attr in ('pop', 'clear', 'popitem'):
+                    fld = self_attr(fn_.value) or (alias_of(fn_.value.id) if isinstance(fn_.value, ast.Name) else None)
+                    if fld in self.fields:
+                        return [(None, st | {('removed', fld)})]
+                if fn_.attr in ('notify_all',) and self_attr(fn_.value) in self.locks:
+                    return [(None, frozenset(f for f in st if f[0] != 'removed'))]
+            cu = _counter_update(a, alias_of)
             if cu:
+                self.counter_nodes[node.id] = cu
                 op, f, key = cu
                 fact = ('inc', f, key)
                 if op == 'inc':
@@ -252,6 +336,17 @@ class LockFlow:
 
     def may_hold(self, nid, lock) -> bool:
         return dataflow.may(self.at(nid), ('held', lock))
+
+    def fields_touched(self, nid, expr) -> set:
+        """bookkeeping fields read or written by expr at node nid: self.F, or a local that may alias self.F there"""
+        out = set()
+        for x in [expr, *walk_no_nested(expr)]:
+            a = self_attr(x)
+            if a in self.fields:
+                out.add(a)
+            elif isinstance(x, ast.Name):
+                out |= {f[2] for st in self.at(nid) for f in st if f[0] == 'alias' and f[1] == x.id}
+        return out
 
     def yields(self):
         return [n.id for n in self.cfg.nodes.values() if n.kind == 'yield']
